@@ -143,6 +143,9 @@ def _leaf_ops(path, f, N, full):
             out.append(("iaddf", path) + g)
         out.append(("imulf", path) + g)
         out.append(("assign", path) + g)
+    out.append(("assignu", path, (2, 0), (1, 1)))
+    if full:
+        out.append(("assignu", path, (1, 2, 0), (1, 1, 2)))
     srcs = [(0,), (1,), (0, 2), (0, 1, 2)] if full else [(1,), (0, 1)]
     for src in srcs:
         for body in itertools.product("naz", repeat=len(src)):
@@ -309,6 +312,9 @@ def _apply(S, op):
         f *= _mkf(op[2:])
     elif k == "assign":
         f <<= _mkf(op[2:])
+    elif k == "assignu":
+        # the source is an unordered fiber (legal input); the destination stays ordered
+        f <<= Fiber(list(op[2]), list(op[3]), ordered=False)
     elif k == "pop":
         a = Fiber(list(op[2]), [1] * len(op[2]))
         for (c, (zr, av)), act in zip(f << a, op[3]):
